@@ -186,7 +186,13 @@ Defs == <<
        TIf(TBin("==", TId, TArr0), TStr(<<>>),
            TReduce(TPath(TId, << PFrom(TNum(1)) , PIter >>), "x", TPipe(TAt(TNum(0)), TC0("tostring")),
                    TBin("+", TBin("+", TId, TVar("s")), TPipe(TVar("x"), TC0("tostring")))))),
-  \* pick(f): manual "pick(f, g) == pick(f) * pick(g)"; defined by the paths of f
+  \* pick(f): the object that contains only the parts of the input that f returns; pick(f, g) == pick(f) * pick(g):
+  \* the product over the paths of f of the singleton objects {p1: {p2: ... value}}
+  TDef("pick", << PF("f") >>,
+       [k |-> "fold", name |-> "reduce", xs |-> TC1("path_value", TC0("f")),
+        pat |-> [p |-> "arr", ps |-> << [p |-> "var", x |-> "path"], [p |-> "var", x |-> "value"] >>],
+        init |-> TObj(<<>>),
+        upd |-> TBin("*", TId, TReduce(TPath(TPipe(TVar("path"), TC0("reverse")), << PIter >>), "p", TVar("value"), TObj(<< TE(TVar("p"), TId) >>)))]),
   \* in($x) / inside are flipped has / contains
   TDef("in", << PF("xs") >>, TAs(TId, "x", TPipe(TC0("xs"), TC1("has", TVar("x")))))
 >>
